@@ -83,7 +83,7 @@ namespace adept {
       void push_lhs_range(const uIndex& first, const uIndex& n, 
 			  const uIndex& stride = 1) {
 	uIndex last_plus_1 = first+n*stride;
-	for (uIndex i = first; i < last_plus_1; i += stride) {
+	for (uIndex i = first; i != last_plus_1; i += stride) {
 	  statement_.push_back(Statement(i, n_operations_));
 	}
 	n_statements_ += n;
